@@ -7,6 +7,7 @@
 //!   {"e":"read","kind":"data","bytes":[..],"fds":[tags]} | kind "eof" (fds) | kind "err" (errno)
 //!   {"e":"enq","resp":{...builder...}}      enqueue a response built by `respbuild`
 //!   {"e":"write","o":{"k":"accept","n":k}|{"k":"zero"}|{"k":"eintr"}|{"k":"eagain"}|{"k":"epipe"}}
+//!   {"e":"clear"}                            clear_write_buffer
 //!   {"e":"drain"}                            try_write with accept-all until nothing is pending
 //!   {"e":"drop"}                             drop popped requests and the connection
 use crate::obs;
@@ -45,6 +46,7 @@ pub fn open_fd_count() -> usize {
 fn write_script(o: &Value) -> WriteScript {
     match o["k"].as_str().unwrap_or("") {
         "accept" => WriteScript::Accept(o["n"].as_u64().unwrap_or(0) as usize),
+        "acceptabs" => WriteScript::AcceptAbs(o["j"].as_u64().unwrap_or(1) as usize, o["r"].as_u64().unwrap_or(1) as usize),
         "zero" => WriteScript::Zero,
         "eintr" => WriteScript::Eintr,
         "eagain" => WriteScript::Eagain,
@@ -77,7 +79,7 @@ fn one_write(conn: &mut HttpConnection<ScriptStream>, stream: &ScriptStream, o: 
     let mut st = stream.0.borrow_mut();
     st.next_write = None;
     // what the stream really did (an accept larger than offered is clipped)
-    let eff = if o["k"] == "accept" && st.write_calls > 0 {
+    let eff = if (o["k"] == "accept" || o["k"] == "acceptabs") && st.write_calls > 0 {
         json!({"k": "accept", "n": st.last_sent.len()})
     } else {
         o.clone()
@@ -367,6 +369,12 @@ pub fn run_script(script: &Value, tags: &TagFiles, out: &mut dyn Write) -> bool 
                 resp.write_all(&mut ser).unwrap();
                 conn.enqueue_response(resp);
                 line = json!({"e": "enq", "ser": obs::bytes(&ser), "pending": conn.pending_write()});
+                writeln!(out, "{}", line).unwrap();
+            }
+            "clear" => {
+                // clear_write_buffer is public (the server calls it on a hang-up)
+                conn.clear_write_buffer();
+                line = json!({"e": "clear", "pending": conn.pending_write()});
                 writeln!(out, "{}", line).unwrap();
             }
             "write" | "drain" => {
